@@ -378,6 +378,19 @@ def main():
     except Exception as e:
         status['masks'] = 'failed: %s' % e
     try:
+        import imptrans as imptr
+        g3 = dict(golden)
+        txt, ist = imptr.lean_file(g3)
+        changed |= write_if_changed(os.path.join(GEN, 'Imp.lean'), txt)
+        for k_, v_ in ist.items():
+            status['functions'][k_] = dict(v_, lean='Imp.' + k_, params=[], bools=[], selfattrs=[], absparams=[], nret=1, abscalls=[])
+        if update:
+            for k_, v_ in g3.items():
+                if k_.startswith('imp:'):
+                    golden[k_] = v_
+    except Exception as e:
+        status['imp'] = 'failed: %s' % e
+    try:
         import cachesites
         txt, sites = cachesites.lean_table(os.environ.get('IXPE_REPO', os.path.dirname(os.path.dirname(importlib.import_module('ixpeobssim').__file__))))
         changed |= write_if_changed(os.path.join(GEN, 'CacheSites.lean'), txt)
